@@ -235,7 +235,7 @@ func (p *ocrPlugin) Report(ctx context.Context, t types.ReportTimestamp, _ types
 	// common type between both the UpkeepResult and the struct derived from a
 	// log triggered observation.
 
-	var totalReportGas uint32
+	var totalReportGas uint64
 	toPerform := make([]UpkeepResult, 0, len(checkedUpkeeps))
 
 	for _, result := range checkedUpkeeps {
@@ -252,8 +252,8 @@ func (p *ocrPlugin) Report(ctx context.Context, t types.ReportTimestamp, _ types
 			continue
 		}
 
-		upkeepMaxGas := gas + p.conf.GasOverheadPerUpkeep
-		if totalReportGas+upkeepMaxGas > p.conf.GasLimitPerReport {
+		upkeepMaxGas := uint64(gas) + uint64(p.conf.GasOverheadPerUpkeep)
+		if totalReportGas+upkeepMaxGas > uint64(p.conf.GasLimitPerReport) {
 			// We don't break here since there could be an upkeep with the lower
 			// gas limit so there could be a space for it in the report.
 			p.logger.Printf("skipping upkeep %s due to report limit, current capacity is %d, upkeep gas is %d with %d overhead", key, totalReportGas, gas, p.conf.GasOverheadPerUpkeep)
